@@ -182,6 +182,10 @@ def run(report, p):
                 ok = deps in ([(f"{rec}.path != {v}", "F")], [(f"{rec}.path == {v}", "T")]) and g.node_for(c).id in g.reachable_from([g.node_for(upd[0])])
                 lp = next((a for a in _anc(upd[0]) if isinstance(a, ast.For)), None)
                 ok = ok and lp is not None and norm(lp.iter).endswith(".media_hashes") and is_plain_iter(p, lp.iter)
+                # ... of every generation: the record that carries the previous path can be in any of them
+                gl_ = next((a for a in _anc(lp) if isinstance(a, ast.For)), None) if lp is not None else None
+                if ok and gl_ is not None and norm(gl_.iter).endswith(".hash_lists") or (ok and gl_ is not None and "hash_lists" in norm(gl_.iter)):
+                    r3.check(is_plain_iter(p, gl_.iter), f, gl_.iter, f"the record that carries the previous path is searched in `{norm(gl_.iter)[:50]}` only, not in every generation: a rename recorded in a generation outside it is not followed and the file is reported as new", construct="previous-path search over part of the generations")
             r3.check(ok, f, c, "the original entry is looked up without following the record's previous path (a renamed file would be reported as new / never verified against its first digest)", construct="lookup follows previous_path")
 
     # ------------------------------------------------------------------ R17.4
